@@ -66,8 +66,8 @@ func (c *Ctx) ruleC14FS() {
 	r.Rule("C14-WHO-MAY-TOUCH-FS", "path-taking file primitives (os.*, ioutil.*, filepath.Walk/Glob/EvalSymlinks/Abs, schema-core reader.*, os/exec, net) are called in library packages only from the reference sites getIncludedFilePath->os.Stat, readFile->os.ReadFile, readPanicFree->reader.Read; thorough tier: also no other dependency function reachable from the library reaches such a primitive", 3)
 	allowed := map[string]string{
 		"core.(*JApiCore).getIncludedFilePath -> os.Stat": "stat of the validated, joined include path",
-		"core.readFile -> os.ReadFile":                     "reads the path returned by getIncludedFilePath",
-		"kit.readPanicFree -> reader.Read":                 "reads the root file given by the caller",
+		"core.readFile -> os.ReadFile":                    "reads the path returned by getIncludedFilePath",
+		"kit.readPanicFree -> reader.Read":                "reads the root file given by the caller",
 	}
 	seen := map[string]bool{}
 	for _, f := range c.libFns() {
